@@ -59,6 +59,21 @@ func basesOf(v ssa.Value) []ssa.Value {
 			for _, e := range x.Edges {
 				walk(e)
 			}
+		case *ssa.Lookup:
+			// an element of a map: a slice or pointer stored there shares its memory with the map's contents
+			if _, isMap := x.X.Type().Underlying().(*types.Map); isMap && isRefType(x.Type()) || x.CommaOk {
+				walk(x.X)
+			} else {
+				out = append(out, x)
+			}
+		case *ssa.Extract:
+			if lk, ok := x.Tuple.(*ssa.Lookup); ok && x.Index == 0 {
+				if _, isMap := lk.X.Type().Underlying().(*types.Map); isMap {
+					walk(lk.X)
+					return
+				}
+			}
+			out = append(out, x)
 		case *ssa.UnOp:
 			if x.Op == token.MUL {
 				// load: the loaded value is derived from what is stored at the address
